@@ -128,7 +128,8 @@ def sameSet (a b : List Str) : Bool := a.all (b.contains ·) && b.all (a.contain
 
 /-- the tests of `_remove_self_joins_no_condition` on a referencing rule and its parent rule -/
 def elimTests (sh : ElimShape) (r parent : Rule) : Bool :=
-  (!sh.sameSource || r.logicalSourceValue = parent.logicalSourceValue)
+  (!sh.sameSection || r.sourceName = parent.sourceName)
+  && (!sh.sameSource || r.logicalSourceValue = parent.logicalSourceValue)
   && (!sh.sameIterator || r.iterator = parent.iterator)
   && (!sh.sameColumns || r.objectJoin.all (fun cp => cp.1 = cp.2))
   && (match sh.subjRefs with
